@@ -1,4 +1,5 @@
 import TinysetModel.Model.WFCheck
+import TinysetModel.Generated.Fits
 /-! Trace validator: reads the line protocol written by `/verif/harness` on stdin, re-executes
 every step on the Lean model and reports every line where return value, representation or
 iteration order differ.  One process validates one trace file. -/
@@ -149,6 +150,22 @@ def cmpIter (s : St) (name : String) (res : Except IErr (Option Nat)) (impl : St
   | .error _ => if impl == "P" then pure (s.bump s!"op:{name}:panic") else s.fail s!"{name}: model error, impl {impl}"
   | .ok v => if optStr v == impl then pure (s.bump s!"op:{name}") else s.fail s!"{name}: model {optStr v} impl {impl}"
 
+/-- `Fits64` of the generated model: (to_u64 of the raw pattern, from_u64 of that, as raw pattern) -/
+def fitsModel (ty : String) (raw : Nat) : Option (Nat × Option Nat) :=
+  match ty with
+  | "u8" => let e := Gen.to_u64_u8 (BitVec.ofNat 8 raw); some (e.toNat, some (Gen.from_u64_u8 e).toNat)
+  | "u16" => let e := Gen.to_u64_u16 (BitVec.ofNat 16 raw); some (e.toNat, some (Gen.from_u64_u16 e).toNat)
+  | "u32" => let e := Gen.to_u64_u32 (BitVec.ofNat 32 raw); some (e.toNat, some (Gen.from_u64_u32 e).toNat)
+  | "u64" => let e := Gen.to_u64_u64 (BitVec.ofNat 64 raw); some (e.toNat, some (Gen.from_u64_u64 e).toNat)
+  | "usize" => let e := Gen.to_u64_usize (BitVec.ofNat 64 raw); some (e.toNat, some (Gen.from_u64_usize e).toNat)
+  | "i8" => let e := Gen.to_u64_i8 (BitVec.ofNat 8 raw); some (e.toNat, some (Gen.from_u64_i8 e).toNat)
+  | "i16" => let e := Gen.to_u64_i16 (BitVec.ofNat 16 raw); some (e.toNat, some (Gen.from_u64_i16 e).toNat)
+  | "i32" => let e := Gen.to_u64_i32 (BitVec.ofNat 32 raw); some (e.toNat, some (Gen.from_u64_i32 e).toNat)
+  | "i64" => let e := Gen.to_u64_i64 (BitVec.ofNat 64 raw); some (e.toNat, some (Gen.from_u64_i64 e).toNat)
+  | "isize" => let e := Gen.to_u64_isize (BitVec.ofNat 64 raw); some (e.toNat, some (Gen.from_u64_isize e).toNat)
+  | "char" => let e := Gen.to_u64_char (BitVec.ofNat 32 raw); some (e.toNat, (Gen.from_u64_char e).map (·.toNat))
+  | _ => none
+
 def step (s : St) (line : String) : IO St := do
   let s := { s with line := s.line + 1 }
   let toks := (line.splitOn " ").filter (· ≠ "")
@@ -165,6 +182,13 @@ def step (s : St) (line : String) : IO St := do
   let c := s.c
   let N := String.toNat!
   match toks with
+  | ["fits", ty, raw, enc] =>
+    match fitsModel ty (N raw) with
+    | none => s.fail s!"fits: unknown type {ty}"
+    | some (e, back) =>
+      if e != N enc then s.fail s!"fits {ty}: to_u64 of bit pattern {raw}: model {e} impl {enc}"
+      else if back != some (N raw) then s.fail s!"fits {ty}: model from_u64(to_u64({raw})) = {back}"
+      else pure (s.bump s!"op:fits:{ty}")
   | ["new", i] => pure (s.set (N i) .empty)
   | ["drop", i] => pure (s.set (N i) .empty)
   | "wcb" :: i :: cap :: bits :: rest =>
@@ -243,6 +267,7 @@ def step (s : St) (line : String) : IO St := do
   | "uni" :: k :: i :: j :: form :: rest =>
     let (_, ds, ir) := splitDR rest
     let act := if form == "own" then unionOwn c uRng FUEL (s.get (N i)) (s.get (N j))
+               else if form == "ref64u" then unionRef64 c uRng FUEL (s.get (N i)) (s.get (N j))
                else unionRef c uRng FUEL (s.get (N i)) (s.get (N j))
     s.runSet s!"uni:{form}" (N k) act (toks2nats ds) ir
   | "dif" :: k :: i :: j :: form :: rest =>
